@@ -198,6 +198,8 @@ def dispatch_harness(ta, tb, calls):
         import importlib
         from g3dvc import setworld as SW
         I = importlib.import_module(MOD)
+        if not vc.symbolic:
+            return _dispatch_concrete(vc, I, ta, tb)
         w = SW.SetWorld(vc)
         a = w.obj(ta, "a")
         b = w.obj(tb, "b")
@@ -229,3 +231,47 @@ def dispatch_harness(ta, tb, calls):
             vc.ensure("%s [%s, %s] is None" % (label, ta, tb), out.returned and out.value is None and not calls)
 
     return h
+
+
+def concrete_sample(kind, variant=0):
+    """a fixed concrete operand of each type (native replay of dispatcher obligations)"""
+    from g3dvc.engine import load_repo
+    g = load_repo()
+    P_, V_ = g.Point, g.Vector
+    if kind == "Point":
+        return P_(1, 2, 2) if variant == 0 else P_(0, 0, 0)
+    if kind == "Line":
+        return g.Line(P_(0, 0, 0), V_(1, 2, 2))
+    if kind == "Plane":
+        return g.Plane(P_(0, 0, 0), V_(2, 1, -2))
+    if kind == "Segment":
+        return g.Segment(P_(0, 0, 0), P_(2, 4, 4))
+    if kind == "HalfLine":
+        return g.HalfLine(P_(0, 0, 0), V_(1, 2, 2))
+    if kind == "ConvexPolygon":
+        return g.ConvexPolygon((P_(0, 0, 0), P_(4, 0, 0), P_(4, 4, 0), P_(0, 4, 0)))
+    if kind == "ConvexPolyhedron":
+        return g.Parallelepiped(P_(-1, -1, -1), V_(4, 0, 0), V_(0, 4, 0), V_(0, 0, 4))
+    raise KeyError(kind)
+
+
+def _dispatch_concrete(vc, I, ta, tb):
+    from g3dvc.engine import load_repo
+    g = load_repo()
+    a, b = concrete_sample(ta), concrete_sample(tb, 1)
+    exp, _ = handler_for(ta, tb)
+    kinds = RESULT_KINDS[exp]
+    forms = [("intersection(a, b)", lambda: I.intersection(a, b))]
+    if ta != "Point":
+        forms.append(("a.intersection(b)", lambda: a.intersection(b)))
+    for label, f in forms:
+        out = vc.call(f)
+        vc.ensure("%s [%s, %s]: defined (no NotImplementedError / other exception)" % (label, ta, tb), out.returned)
+        if not out.returned:
+            vc.note("%s raised %r" % (label, out.value))
+            continue
+        k = None if out.value is None else type(out.value).__name__
+        vc.ensure("%s [%s, %s]: result type %s among %s" % (label, ta, tb, k, kinds), k in kinds)
+    for label, f in (("intersection(a, None)", lambda: I.intersection(a, None)), ("intersection(None, b)", lambda: I.intersection(None, b))):
+        out = vc.call(f)
+        vc.ensure("%s [%s, %s] is None" % (label, ta, tb), out.returned and out.value is None)
